@@ -2,8 +2,12 @@ package c10
 
 import (
 	"bytes"
+	"encoding/json"
 	"fmt"
-	"regexp"
+	"github.com/google/pprof/xverif/sess"
+	"os"
+	"os/exec"
+	"path/filepath"
 	"strings"
 	"sync"
 	"testing"
@@ -38,7 +42,7 @@ type histCase struct {
 
 var boolOpts = []string{"call_tree", "relative_percentages", "mean", "drop_negative", "trim", "noinlines", "showcolumns", "compact_labels"}
 var radio = map[string]string{"cum": "sort", "flat": "sort", "functions": "granularity", "filefunctions": "granularity", "files": "granularity", "lines": "granularity", "addresses": "granularity"}
-var cmds = []string{"top", "top", "tree", "peek", "traces", "tags", "dot", "callgrind", "callgrind", "raw", "text", "comments", "svg", "png", "proto", "topproto"}
+var cmds = []string{"top", "top", "tree", "peek", "traces", "tags", "dot", "callgrind", "callgrind", "raw", "text", "comments", "svg", "png", "proto", "topproto", "o", "options", "o"}
 
 func genRegexWord(t *rapid.T, p *gen.Prof, label string) string {
 	var pool []string
@@ -63,7 +67,7 @@ func genCase(t *rapid.T) *histCase {
 	for i := 0; i < n; i++ {
 		if rapid.IntRange(0, 2).Draw(t, "isassign") == 0 {
 			s := Step{Assign: true}
-			switch rapid.IntRange(0, 5).Draw(t, "akind") {
+			switch rapid.IntRange(0, 6).Draw(t, "akind") {
 			case 0:
 				s.Name = rapid.SampledFrom(boolOpts).Draw(t, "bool")
 				if rapid.Bool().Draw(t, "bare") {
@@ -91,6 +95,10 @@ func genCase(t *rapid.T) *histCase {
 				s.Name = rapid.SampledFrom([]string{"nodecount", "nodefraction", "edgefraction", "divide_by", "unit"}).Draw(t, "numopt")
 				s.Value = map[string][]string{"nodecount": {"-1", "0", "1", "2", "5"}, "nodefraction": {"0", "0.1", "0.5"}, "edgefraction": {"0", "0.2"}, "divide_by": {"1", "2"}, "unit": {"minimum", "auto"}}[s.Name][0]
 				s.Value = rapid.SampledFrom(map[string][]string{"nodecount": {"-1", "0", "1", "2", "5"}, "nodefraction": {"0", "0.1", "0.5"}, "edgefraction": {"0", "0.2"}, "divide_by": {"1", "2"}, "unit": {"minimum", "auto"}}[s.Name]).Draw(t, "nval")
+			case 5:
+				// how file names are shortened for display (derived from source_path when trim_path is empty)
+				s.Name = rapid.SampledFrom([]string{"source_path", "source_path", "trim_path"}).Draw(t, "pathopt")
+				s.Value = rapid.SampledFrom([]string{"/q/usr", "/q/src", "/q/lib", "", "/usr", "/q/usr:/q/src"}).Draw(t, "pathval")
 			default:
 				s.Name = "sample_index"
 				s.Value = p.SampleTypes[rapid.IntRange(0, len(p.SampleTypes)-1).Draw(t, "si")].Type
@@ -104,6 +112,12 @@ func genCase(t *rapid.T) *histCase {
 		}
 		// callgrind / proto / topproto without a redirection go to a temporary file announced on the
 		// message stream ("Generating report in ..."), not to the terminal
+		if s.Name == "o" || s.Name == "options" {
+			// the option listing: no arguments, printed on the message stream
+			s.Redir = 0
+			c.Steps = append(c.Steps, s)
+			continue
+		}
 		if s.Name == "peek" {
 			s.Args = append(s.Args, genRegexWord(t, p, "peekre"))
 		}
@@ -121,6 +135,17 @@ func genCase(t *rapid.T) *histCase {
 			}
 		}
 		c.Steps = append(c.Steps, s)
+	}
+	if rapid.IntRange(0, 5).Draw(t, "pathstory") == 0 && len(p.Functions) > 0 {
+		// file names as they are displayed: a report under one source_path, then the same report under another
+		p.Functions[0].Filename = "/usr/src/w.c"
+		a, b := "/q/usr", "/q/src"
+		if rapid.Bool().Draw(t, "pathorder") {
+			a, b = b, a
+		}
+		g := rapid.SampledFrom([]string{"files", "lines", "filefunctions"}).Draw(t, "pathgran")
+		c.Steps = append(c.Steps, Step{Assign: true, Name: g, Bare: true, Value: "true"}, Step{Assign: true, Name: "source_path", Value: a},
+			Step{Name: "top", Redir: 1}, Step{Assign: true, Name: "source_path", Value: b})
 	}
 	// make sure the history ends with a command
 	c.Steps = append(c.Steps, Step{Name: rapid.SampledFrom([]string{"top", "tree", "traces", "tags"}).Draw(t, "lastcmd"), Redir: 1})
@@ -149,11 +174,6 @@ func (s Step) line(i int) string {
 	return l
 }
 
-// resetBlock pins every option at the start of every session (the configuration is process-global).
-var resetBlock = []string{"call_tree=false", "relative_percentages=false", "unit=minimum", "compact_labels=true", "source_path=", "trim_path=", "intel_syntax=false", "mean=false",
-	"divide_by=1", "normalize=false", "sort=flat", "tagroot=", "tagleaf=", "drop_negative=false", "nodecount=-1", "nodefraction=0.005", "edgefraction=0.001", "trim=true",
-	"focus=", "ignore=", "prune_from=", "hide=", "show=", "show_from=", "tagfocus=", "tagignore=", "tagshow=", "taghide=", "noinlines=false", "showcolumns=false", "granularity=functions", "output="}
-
 type sessOut struct {
 	files  map[string]string
 	stdout string
@@ -161,18 +181,35 @@ type sessOut struct {
 }
 
 func runSession(p *profile.Profile, lines []string) sessOut {
-	all := append(append([]string{}, resetBlock...), lines...)
-	wr := &pp.Writer{Fail: map[string]error{}}
-	for i := 0; i < 40; i++ {
-		wr.Fail[fmt.Sprintf("fail%d", i)] = fmt.Errorf("scripted: cannot create file")
+	o := sess.Run(p, lines)
+	return sessOut{files: o.Files, stdout: o.Stdout, res: o.Res}
+}
+
+// freshProcess runs the session in a new process (cmd/xsession): the reference that nothing left behind in
+// this process can reach.
+func freshProcess(p *profile.Profile, lines []string) (*sess.Out, error) {
+	helper := filepath.Join(os.Getenv("VERIF_BUILD"), "xsession")
+	if _, err := os.Stat(helper); err != nil {
+		return nil, err
 	}
-	res := pp.Run(pp.Req{Args: []string{"src"}, Sources: map[string]*pp.Source{"src": {Prof: p}}, Lines: all, Writer: wr})
-	out := sessOut{files: map[string]string{}, stdout: res.Stdout, res: res}
-	for _, n := range res.W.Order {
-		b, _ := res.W.Get(n)
-		out.files[n] = string(b)
+	var raw bytes.Buffer
+	p.WriteUncompressed(&raw)
+	in, _ := json.Marshal(struct {
+		Prof  []byte
+		Lines []string
+	}{raw.Bytes(), lines})
+	cmd := exec.Command(helper)
+	cmd.Stdin = bytes.NewReader(in)
+	var stdout, stderr bytes.Buffer
+	cmd.Stdout, cmd.Stderr = &stdout, &stderr
+	if err := cmd.Run(); err != nil {
+		return nil, fmt.Errorf("%v: %.300s", err, stderr.String())
 	}
-	return out
+	var out sess.Out
+	if err := json.Unmarshal(stdout.Bytes(), &out); err != nil {
+		return nil, fmt.Errorf("helper output: %v: %.300s", err, stdout.String())
+	}
+	return &out, nil
 }
 
 // The reference sessions run in the same process as the history, so state that pprof keeps in process
@@ -300,6 +337,21 @@ func check(c *histCase, o *vk.Obs) []string {
 	if full.stdout != wantStdout.String() {
 		e.Addf("what the un-redirected commands print depends on the history (lines %q):\n--- fresh sessions, concatenated\n%.700s\n--- one session\n%.700s", lines, wantStdout.String(), full.stdout)
 	}
+	// the last command once more against a reference computed in a process of its own
+	if last := len(c.Steps) - 1; last >= 0 && !c.Steps[last].Assign && c.Steps[last].Redir == 1 {
+		name := fmt.Sprintf("out%d", last)
+		ref, err := freshProcess(p, append(append([]string{}, assigns...), c.Steps[last].line(last)))
+		switch {
+		case err != nil:
+			o.Inconcl = append(o.Inconcl, "fresh-process reference unavailable: "+err.Error())
+		case ref.Panic != "":
+			e.Addf("fresh process panicked: %s", ref.Panic)
+		case ref.Files[name] != full.files[name]:
+			e.Addf("step %d %q: the command's output differs from what a new pprof process prints for the same option assignments.\nhistory: %q\noption assignments in effect: %q\n--- new process\n%.700s\n--- after the history\n%.700s", last, c.Steps[last].line(last), lines[:last], assigns, ref.Files[name], full.files[name])
+		default:
+			o.Label("fresh-process-reference")
+		}
+	}
 	o.NonTrivial = nontrivial
 	o.LabelIf(mutating, "mutating-report-first")
 	for _, m := range canaryCheck(lines) {
@@ -310,7 +362,7 @@ func check(c *histCase, o *vk.Obs) []string {
 
 func TestPropHistory(t *testing.T) {
 	vk.Main(t, vk.Spec[histCase]{ID: "C10", Facet: "history", Quick: 1500, Thorough: 8000, Gen: genCase, Check: check, Journal: true, CaseTimeout: 120 * time.Second,
-		Rule: "histories of 3..10 interactive lines over one generated profile: option assignments (name=value, bare bool, bare or assigned radio choice, filters built from the profile's own names, tag options, numeric options, sample_index) interleaved with report commands carrying their own arguments (focus/ignore words, counts, -cum, redirection in both spellings, or stdout); oracle: history independence - every command's output equals the output of a fresh session that replays only the option assignments in effect and then that command (files byte for byte, stdout as the in-order concatenation); plus a fixed canary session recorded in the pristine process and repeated after every history (state left behind in process globals); non-trivial = a mutating report or assignment (filters, granularity, tagroot, noinlines, command arguments) precedes a later command"})
+		Rule: "histories of 3..10 interactive lines over one generated profile: option assignments (name=value, bare bool, bare or assigned radio choice, filters built from the profile's own names, tag options, numeric options, sample_index) interleaved with report commands carrying their own arguments (focus/ignore words, counts, -cum, redirection in both spellings, or stdout); oracle: history independence - every command's output equals the output of a fresh session that replays only the option assignments in effect and then that command (files byte for byte, stdout as the in-order concatenation); the last command additionally against the same session run in a new process (cmd/xsession), plus a fixed canary session recorded in the pristine process and repeated after every history (state left behind in process globals); non-trivial = a mutating report or assignment (filters, granularity, tagroot, noinlines, command arguments) precedes a later command"})
 }
 
 // ---- facet web: responses depend only on the request ----
@@ -486,17 +538,4 @@ func TestPropWeb(t *testing.T) {
 
 var _ = bytes.Equal
 
-var tmpNum = regexp.MustCompile(`profile\d+\.`)
-
-// announcements lists the "Generating report in ..." messages of a session, without the one of the
-// reference sessions' leading "comments >flush" and with temporary file numbers masked.
-func announcements(res *pp.Res) string {
-	_, errs := res.UI.Snapshot()
-	var out []string
-	for _, m := range errs {
-		if strings.HasPrefix(m, "Generating report in") && !strings.HasSuffix(strings.TrimSpace(m), " flush") {
-			out = append(out, tmpNum.ReplaceAllString(strings.TrimSpace(m), "profileN."))
-		}
-	}
-	return strings.Join(out, "\n")
-}
+func announcements(res *pp.Res) string { return sess.Announcements(res) }
